@@ -141,6 +141,11 @@ class Representation(RepresentationBaseType):
             return False
         if not await self.init_segment.load():
             return False
+        if self.mode == 'live' and not self.attrs.check_not_none(
+                self.mpd.availabilityStartTime,
+                msg='MPD@availabilityStartTime is required to locate the segments of a live stream',
+                clause='5.3.1.2'):
+            return False
         frameRate = 24
         if self.frameRate is not None:
             frameRate = self.frameRate.value
@@ -620,8 +625,9 @@ class Representation(RepresentationBaseType):
             return
         if not self.elt.check_equal(self.mode, 'live'):
             return
-        if self.mpd.timeShiftBufferDepth is None:
-            # missing MPD@timeShiftBufferDepth error is reported by manifest.py
+        if self.mpd.timeShiftBufferDepth is None or self.mpd.availabilityStartTime is None:
+            # a missing MPD@timeShiftBufferDepth or MPD@availabilityStartTime
+            # is reported by manifest.py
             return
         seg_duration = self.segmentTemplate.duration
         timeline = self.segmentTemplate.segmentTimeline
@@ -630,6 +636,11 @@ class Representation(RepresentationBaseType):
         if seg_duration is None:
             if not self.elt.check_not_none(timeline, msg='SegmentTimeline missing'):
                 return
+        if timeline is not None and not self.elt.check_greater_than(
+                len(timeline.segments), 0,
+                msg='SegmentTimeline does not describe any segment'):
+            return
+        if seg_duration is None:
             seg_duration = timeline.duration / float(len(timeline.segments))
         if timeline is not None:
             num_segments = len(self.segmentTemplate.segmentTimeline.segments)
